@@ -331,6 +331,22 @@ fn c01_specificity() {
     println!("NONE 1");
 }
 
+
+/// C14: an element with an id whose first word must be hard-wrapped still yields its fragment marker
+fn c14_hardwrap() {
+    use html2text::render::TaggedLineElement;
+    let docs = ["<p id=x>hhhhhhhh b</p>", "<p>aa <span id=x>hhhhhhhhhh</span></p>", "<ul><li id=x>wwwwwwwwwwww</ul>"];
+    let mut cases = 0u64;
+    for d in docs { for w in 3..=8usize {
+        cases += 1;
+        let lines = match config::rich().lines_from_read(d.as_bytes(), w) { Ok(l) => l, Err(_) => continue };
+        let mut n = 0;
+        for l in &lines { for e in l.iter() { if let TaggedLineElement::FragmentStart(f) = e { if f == "x" { n += 1; } } } }
+        if n != 1 { found("c14_hardwrap", &format!("width={} html={}", w, d), &format!("{} fragment markers named x in the output (expected exactly 1)", n)); }
+    }}
+    println!("NONE {}", cases);
+}
+
 fn main() {
     let mode = std::env::args().nth(1).unwrap_or_default();
     panic::set_hook(Box::new(|_| {}));
@@ -338,6 +354,7 @@ fn main() {
         "c19" => c19(),
         "c19_inherit" => c19_inherit(),
         "dbg" => dbg(),
+        "c14_hardwrap" => c14_hardwrap(),
         "c01_specificity" => c01_specificity(),
         "c01_colspan" => c01_colspan(),
         "c07_ol" => c07_ol(),
